@@ -43,8 +43,7 @@ func runCode(code *gojq.Code, v any, vars []any, maxOut int, budget time.Duratio
 			res.Panic = fmt.Sprint(e)
 		}
 	}()
-	ctx, cancel := context.WithTimeout(context.Background(), budget)
-	defer cancel()
+	ctx := newGuardCtx(0, 0, budget)
 	it := code.RunWithContext(ctx, v, vars...)
 	for {
 		x, ok := it.Next()
